@@ -86,3 +86,210 @@ def sx_meta(m):
 
 def render_attr(m, inner=False):
     return "#%s[%s]" % ("!" if inner else "", render_meta(m))
+
+
+# ======================================================================= types
+# ("tuple", [t]) | ("ref", t, mut) | ("path", [quals], last, [args], lifetime_noise) |
+# ("array", t, n|None) | ("slice", t) | ("other", text)
+
+def t_path(last, args=(), quals=(), lt=False):
+    return ("path", list(quals), last, list(args), lt)
+
+
+def render_type(t):
+    k = t[0]
+    if k == "tuple":
+        if len(t[1]) == 1:
+            return "(%s,)" % render_type(t[1][0])
+        return "(%s)" % ", ".join(render_type(x) for x in t[1])
+    if k == "ref":
+        return "&%s%s" % ("mut " if t[2] else "", render_type(t[1]))
+    if k == "path":
+        _, quals, last, args, lt = t
+        inner = (["'a"] if lt else []) + [render_type(a) for a in args]
+        s = "::".join(list(quals) + [last])
+        if inner:
+            s += "<%s>" % ", ".join(inner)
+        return s
+    if k == "array":
+        return "[%s; %s]" % (render_type(t[1]), t[2] if t[2] is not None else "N")
+    if k == "slice":
+        return "[%s]" % render_type(t[1])
+    if k == "other":
+        return t[1]
+    raise ValueError(t)
+
+
+def sx_type(t):
+    k = t[0]
+    if k == "tuple":
+        return [S("tuple")] + [sx_type(x) for x in t[1]]
+    if k == "ref":
+        return [S("ref"), sx_type(t[1])]
+    if k == "path":
+        return [S("path"), list(t[1]), t[2]] + [sx_type(a) for a in t[3]]
+    if k == "array":
+        return [S("array"), sx_type(t[1]), t[2]]
+    if k == "slice":
+        return [S("slice"), sx_type(t[1])]
+    if k == "other":
+        return S("other")
+    raise ValueError(t)
+
+
+# ======================================================================= items
+# attr: a Meta plus a rendering style for docs: ("doc", text, style) is expanded by `doc_attr`
+
+def doc_attr(text, style):
+    """style: 'line' (///), 'block' (/** */), 'attr' (#[doc = ".."])"""
+    return ("nv", ["doc"], ("s", text), style)
+
+
+def render_attr_any(a, inner=False):
+    if a[0] == "nv" and a[1] == ["doc"] and len(a) > 3 and a[3] in ("line", "block"):
+        text = a[2][1]
+        if a[3] == "line":
+            return ("//!" if inner else "///") + text + "\n"
+        return ("/*!" if inner else "/**") + text + "*/ "
+    return "#%s[%s] " % ("!" if inner else "", render_meta(a[:3] if a[0] == "nv" else a))
+
+
+def sx_attr(a):
+    return sx_meta(a[:3] if a[0] == "nv" else a)
+
+
+def field(attrs, ident, ty):
+    return {"attrs": attrs, "ident": ident, "ty": ty}
+
+
+def render_fields(fs, indent="    "):
+    kind = fs[0]
+    if kind == "unit":
+        return ""
+    if kind == "named":
+        body = "".join("%s%spub %s: %s,\n" % (indent, "".join(render_attr_any(a) for a in f["attrs"]), f["ident"], render_type(f["ty"]))
+                       for f in fs[1])
+        return " {\n%s%s}" % (body, indent[:-4])
+    return "(%s)" % ", ".join("%s%s" % ("".join(render_attr_any(a) for a in f["attrs"]), render_type(f["ty"])) for f in fs[1])
+
+
+def sx_field(f):
+    return [S("f"), [sx_attr(a) for a in f["attrs"]], f["ident"], sx_type(f["ty"])]
+
+
+def sx_fields(fs):
+    if fs[0] == "unit":
+        return S("unit")
+    return [S(fs[0])] + [sx_field(f) for f in fs[1]]
+
+
+def render_generics(gs):
+    if not gs:
+        return ""
+    parts = []
+    for g in gs:
+        if g[0] == "ty":
+            parts.append(g[1])
+        elif g[0] == "lt":
+            parts.append("'a")
+        else:
+            parts.append("const N: usize")
+    # lifetimes must come first in Rust
+    parts.sort(key=lambda p: 0 if p.startswith("'") else 1)
+    return "<%s>" % ", ".join(parts)
+
+
+def sx_generics(gs):
+    order = sorted(gs, key=lambda g: 0 if g[0] == "lt" else 1)
+    return [[S("ty"), g[1]] if g[0] == "ty" else S(g[0]) for g in order]
+
+
+def render_use(t):
+    k = t[0]
+    if k == "upath":
+        return "%s::%s" % (t[1], render_use(t[2]))
+    if k == "uname":
+        return t[1]
+    if k == "urename":
+        return "%s as %s" % (t[1], t[2])
+    if k == "uglob":
+        return "*"
+    return "{%s}" % ", ".join(render_use(x) for x in t[1])
+
+
+def sx_use(t):
+    k = t[0]
+    if k == "upath":
+        return [S("upath"), t[1], sx_use(t[2])]
+    if k == "uname":
+        return [S("uname"), t[1]]
+    if k == "urename":
+        return [S("urename"), t[1], t[2]]
+    if k == "uglob":
+        return S("uglob")
+    return [S("ugroup")] + [sx_use(x) for x in t[1]]
+
+
+def render_item(it, ind=""):
+    k = it["kind"]
+    attrs = "".join(ind + render_attr_any(a).rstrip(" ") + ("\n" if not render_attr_any(a).endswith("\n") else "") for a in it.get("attrs", []))
+    if k == "struct":
+        fs = it["fields"]
+        tail = ";" if fs[0] != "named" else ""
+        return "%s%spub struct %s%s%s%s\n" % (attrs, ind, it["ident"], render_generics(it["generics"]),
+                                             render_fields(fs, ind + "    "), tail)
+    if k == "enum":
+        body = ""
+        for v in it["variants"]:
+            vattrs = "".join(render_attr_any(a) for a in v["attrs"])
+            body += "%s    %s%s%s,\n" % (ind, vattrs, v["ident"], render_fields(v["fields"], ind + "        "))
+        return "%s%spub enum %s%s {\n%s%s}\n" % (attrs, ind, it["ident"], render_generics(it["generics"]), body, ind)
+    if k == "alias":
+        return "%s%spub type %s%s = %s;\n" % (attrs, ind, it["ident"], render_generics(it["generics"]), render_type(it["ty"]))
+    if k == "const":
+        return "%s%spub const %s: %s = %s;\n" % (attrs, ind, it["ident"], render_type(it["ty"]), it["expr_text"])
+    if k == "use":
+        return "%suse %s;\n" % (ind, render_use(it["tree"]))
+    if k == "mod":
+        return "%s%spub mod %s {\n%s%s}\n" % (attrs, ind, it["ident"], "".join(render_item(x, ind + "    ") for x in it["items"]), ind)
+    if k == "other":
+        # a function whose body holds the nested items and mentions the given paths
+        body = "".join(render_item(x, ind + "    ") for x in it["items"])
+        lets = "".join("%s    let _: Option<%s> = None;\n" % (ind, "::".join(p)) for p in it["paths"])
+        return "%sfn %s() {\n%s%s%s}\n" % (ind, it["ident"], body, lets, ind)
+    raise ValueError(k)
+
+
+def sx_item(it):
+    k = it["kind"]
+    at = [sx_attr(a) for a in it.get("attrs", [])]
+    if k == "struct":
+        return [S("struct"), at, it["ident"], sx_generics(it["generics"]), sx_fields(it["fields"])]
+    if k == "enum":
+        return [S("enum"), at, it["ident"], sx_generics(it["generics"]),
+                [[S("v"), [sx_attr(a) for a in v["attrs"]], v["ident"], sx_fields(v["fields"])] for v in it["variants"]]]
+    if k == "alias":
+        return [S("alias"), at, it["ident"], sx_generics(it["generics"]), sx_type(it["ty"])]
+    if k == "const":
+        return [S("const"), at, it["ident"], sx_type(it["ty"]), [sx_lit(l) for l in it["lits"]]]
+    if k == "use":
+        return [S("use"), sx_use(it["tree"])]
+    if k == "mod":
+        return [S("mod"), at, it["ident"], [sx_item(x) for x in it["items"]]]
+    if k == "other":
+        # `Option<path>` mentions two paths per entry: Option and the path itself
+        paths = []
+        for p in it["paths"]:
+            paths.append(["Option"])
+            paths.append(list(p))
+        return [S("other"), paths, [sx_item(x) for x in it["items"]]]
+    raise ValueError(k)
+
+
+def render_file(f):
+    inner = "".join(render_attr_any(a, inner=True).rstrip(" ") + "\n" for a in f["attrs"])
+    return inner + "".join(render_item(it) + "\n" for it in f["items"])
+
+
+def sx_file(f, text):
+    return [S("file"), [sx_attr(a) for a in f["attrs"]], [sx_item(it) for it in f["items"]], "#[typeshare" in text]
